@@ -25,6 +25,15 @@ CHECKS = {
     'C13': dict(cat='model_checking', tech='TLA+ Select.tla (listed => accepted, undefined => rejected) checked by TLC; every listed name/source and a pool of unknown tokens offered to every library and CLI selector entry point, validated by Trace_Select',
                 text='Exhaustive over what the registry lists: each of the 377 names and 15 sources goes through include/exclude names, SourceList/LintSource parsers, JSON round trip, Filter by source and the CLI flags; unknown tokens must be rejected.',
                 note='defined sources extracted from v3/lint constants; CLI judged by exit status', ref='5 C13'),
+    'C05': dict(cat='model_checking', tech='TLA+ Process.tla memo machine (verdict = function of <<object, lint, effective section>>) checked by TLC; repeated / reordered / multi-process histories validated by Trace_Process; object snapshots; strace syscall stream and SSA call graph validated by Trace_Env against Env.tla',
+                text='Histories are first-class: every observation of a lint on an object across passes in different orders, back-to-back repetitions and separate processes must hit the same memo entry (status and details digest); a reflection hash of every exported field of the object must be unchanged; the syscalls issued while linting and the os/net/exec/time calls reachable from any lint are judged against the allow-list of Env.tla.',
+                note='wall-clock day held fixed; details compared by digest; strace and SSA extraction trusted', ref='5 C05'),
+    'C07': dict(cat='model_checking', tech='TLA+ Process.tla (FilteredAgreesWithFull, memo key without the registry) checked by TLC; full vs filtered registries (by source, regexp, name subsets, every singleton, filter of a filter, both orders) on every corpus object validated by Trace_Process',
+                text='The memo key of a verdict deliberately omits the registry, so any dependence on which other lints run (through the object, package state, result-set aliasing) is a rejected event; also checks that a run reports exactly the selected lints and that flags agree.',
+                note='details compared by digest; lints whose details vary by themselves are attributed to C05 (DESIGN 6.1)', ref='5 C07'),
+    'C11': dict(cat='model_checking', tech='TLA+ Process.tla / configuration sections (CfgLocal, CfgDoesNotLeak, ChildKeepsBirthCfg) checked by TLC; TLC-simulated histories and a catalogue of rendered TOML configurations replayed on the real registries, validated by Trace_Process',
+                text='Every configuration shape (absent, default-valued, each option flipped, ill-typed, scalar/array where a table is expected, unknown key, unrelated sections, the generated example) is rendered for every configurable lint and applied in varying orders to the global registry, copies and children; every verdict must be a function of <<object, lint, what the configuration says to that lint>>, unapplicable sections must give exactly that lint a configuration-error fatal, nothing may escape.',
+                note='what a configuration says to a lint is known by construction of the TOML; go-toml trusted', ref='5 C11'),
 }
 
 
